@@ -24,7 +24,7 @@ CONSTANTS
   Shard, Shards, \* (reserved)
   Markers,      \* TRUE: add single-page queries under arbitrary markers (paginating backends)
   EmptySegs,    \* TRUE: only key sets holding a key with an empty segment (a//b: legal on the key-value backends)
-  MultiDead     \* TRUE: the dead keys (a/a, a/b, b) go in ONE multi-object delete (a whole directory emptied by a batch)
+  MultiDead     \* TRUE: the dead keys (a/a, a/b, b/a/a) go in ONE multi-object delete (whole directories emptied by a batch)
 
 VARIABLES ks
 vars == <<ks>>
@@ -61,7 +61,8 @@ DelimOK(S, d) == d = 0 \/ \A k \in S : k[1] # d /\ k[Len(k)] # d
 DelimSeq(d) == IF d = 0 THEN <<>> ELSE <<d>>
 
 \* two keys that are written and deleted again before the live keys arrive
-Dead(S) == ({<<97, 47, 97>>, <<98>>} \cup (IF MultiDead THEN {<<97, 47, 98>>} ELSE {})) \ S
+\* (MultiDead: a/a, a/b and b/a/a -- the batch empties a directory, and a chain of two)
+Dead(S) == (IF MultiDead THEN {<<97, 47, 97>>, <<97, 47, 98>>, <<98, 47, 97, 47, 97>>} ELSE {<<97, 47, 97>>, <<98>>}) \ S
 
 Body(i) == IF i % 3 = 0 THEN <<>> ELSE IF i % 3 = 1 THEN <<"x1">> ELSE <<"x2">>
 
